@@ -314,6 +314,50 @@ def run(prog, rep, tier):
         rep.violation(R165, FN + "|junk|trailing", "pathbuf_to_filetype_impl: trailing junk is not trimmed with trim_end_matches over %s (found %s)" % (sorted(TRAIL), [sorted(x) for x in sets_e]))
     if LEAD not in sets_s:
         rep.violation(R165, FN + "|junk|leading", "pathbuf_to_filetype_impl: leading junk is not trimmed with trim_start_matches over %s (found %s)" % (sorted(LEAD), [sorted(x) for x in sets_s]))
+    # ------------------------------------------------------------ R16.6 documented type words are in the suffix table
+    R166 = rep.rule("R16.6", "the suffix table recognises the documented type words and compression suffixes")
+    DOC = {"utmp": ("FixedStruct", "Utmp"), "wtmp": ("FixedStruct", "Utmp"), "btmp": ("FixedStruct", "Utmp"),
+           "utmpx": ("FixedStruct", "Utmpx"), "wtmpx": ("FixedStruct", "Utmpx"), "btmpx": ("FixedStruct", "Utmpx"),
+           "lastlog": ("FixedStruct", "Lastlog"), "lastlogx": ("FixedStruct", "Lastlogx"),
+           "acct": ("FixedStruct", "Acct"), "pacct": ("FixedStruct", None),
+           "journal": ("Journal", None), "evtx": ("Evtx", None), "log": ("Text", None), "txt": ("Text", None)}
+    for word, (vari, sub) in sorted(DOC.items()):
+        res = table["suffix"].get(word)
+        okw = res is not None and res[0] == "filetype" and res[1] == vari and (sub is None or res[2] == sub)
+        rep.examined(R166, "%s|suffix:%s" % (FN, word), sample={"word": word, "maps_to": [str(x) for x in (res or ())[:3]], "documented": [vari, sub]})
+        if not okw:
+            rep.violation(R166, "%s|suffix:%s" % (FN, word), "pathbuf_to_filetype_impl: the documented type word %r as a suffix %s; it is then stripped like a rotation suffix and a type word further left (e.g. wtmp in 'wtmp.utmpdump.txt') selects the reader" % (
+                word, "is not matched" if res is None else "selects %s" % (res[1:3],)))
+    for word in ("gz", "gzip", "bz2", "xz", "xzip", "lz4"):
+        if word not in arch_by_lit:
+            rep.violation(R166, "%s|compression:%s" % (FN, word), "pathbuf_to_filetype_impl: the documented compression suffix %r is not recognised" % word)
+
+    # ------------------------------------------------------------ R16.7 no vacuous early fallback
+    R167 = rep.rule("R16.7", "an all-characters test that returns a fallback is guarded against the empty string")
+    alls = [c for c in b.live_calls() if c.o.endswith("Iterator::all") and "Chars" in (c.callee.get("self") or "")]
+    for i, c in enumerate(alls):
+        # the string under test
+        def str_root(op):
+            res = set()
+            for o in b.origins(op, through_calls=("::chars", "::deref", "::as_str")):
+                if o[0] == "local":
+                    res.add(o[1])
+                elif o[0] == "call":
+                    res.add(("call", o[1]))
+            return res
+        sr = str_root(c.args[0])
+        guarded = False
+        for g in b.live_calls():
+            if g.d.endswith("::is_empty") and g.target is not None and str_root(g.args[0]) & sr:
+                t = b.term(g.target)
+                if t[0] == "switch" and op_local(t[1]) == g.dest[0]:
+                    nonempty_t = {int(v): tb for v, tb in t[2]}.get(0)
+                    if nonempty_t is not None and b.dominates(nonempty_t, c.bb):
+                        guarded = True
+        rep.examined(R167, "%s|all#%d" % (FN, i), sample={"line": c.line, "guarded_by_non_empty": guarded})
+        if not guarded:
+            rep.violation(R167, "%s|all#%d" % (FN, i), "pathbuf_to_filetype_impl: `.chars().all(..)` (line %d) is true for an empty string, and names that are not valid UTF-8 are seen as empty here; they would take the fallback before their suffix is looked at" % c.line)
+
     # the public wrapper starts with no container
     wb = prog.body("s4lib::readers::filepreprocessor::pathbuf_to_filetype")
     wc = [c for c in wb.live_calls() if c.d == FN]
